@@ -676,3 +676,28 @@ Lemma claim_demo :
   by_client s 7 = Some 1 /\ (exists r, by_conn s 2 = Some r /\ c_auth r = false /\ c_cid r = 7) /\
   by_client (close_conn 2 s) 7 = Some 1 /\ by_conn (close_conn 2 s) 2 = None /\ counts (close_conn 2 s) = (1, 1, 0).
 Proof. vm_compute. repeat split. eexists. repeat split. Qed.
+
+(* Register of a ConnID that already has a record is a replacement: nobody is evicted (also at the connection limit), every other
+   record is untouched, the control count does not move and no transport is closed *)
+Lemma rereg_is_replacement k c r r0 s : Inv s -> get c (reg s) = Some r0 ->
+  let s' := registry_rereg Current k c r s in
+  (forall c', c' <> c -> by_conn s' c' = by_conn s c') /\ by_conn s' c = Some r /\
+  size (reg s') = size (reg s) /\ closed s' = closed s /\ sess s' = sess s.
+Proof.
+  intros Hinv Hc s'. unfold s', registry_rereg. cbn [keeps_shared]. rewrite Hc.
+  unfold registry_register. cbn [no_limit maxCtl]. cbn [N.ltb N.compare andb].
+  assert (Hn : get c (reg (registry_unregister c s)) = None) by (rewrite reg_unregister; apply get_del_same).
+  rewrite Hn. cbn zeta.
+  assert (Hreg : forall X, reg (if c_auth r && (0 <? c_cid r)
+                                then with_idx (with_reg (registry_unregister c s) X) (set (c_cid r) c (idx (with_reg (registry_unregister c s) X)))
+                                else with_reg (registry_unregister c s) X) = X)
+    by (intros X; destruct (c_auth r && (0 <? c_cid r)); reflexivity).
+  unfold by_conn. rewrite Hreg, reg_unregister.
+  repeat split.
+  - intros c' Hne. rewrite get_set_other by exact Hne. apply get_del_other. exact Hne.
+  - apply get_set_same.
+  - unfold set. rewrite (del_none c (del c (reg s))) by apply get_del_same.
+    pose proof (size_del_some c r0 (reg s) (inv_nd_reg _ Hinv) Hc) as Hs. unfold size in *. cbn [length]. lia.
+  - destruct (c_auth r && (0 <? c_cid r)); unfold with_idx, with_reg; proj; apply closed_unregister.
+  - destruct (c_auth r && (0 <? c_cid r)); unfold with_idx, with_reg; proj; apply sess_unregister.
+Qed.
